@@ -803,7 +803,7 @@ func c20Interop(a vh.Args, r *vh.Result) {
 // ---------- driver ----------
 
 func runC20(a vh.Args, o *vh.Oracle, r *vh.Result) error {
-	r.Rule = "cases: layout = (chunk shape incl. 1 byte, all-zero, incompressible, 256 KiB; format; real or forced id) stored into an empty store and the directory inspected; coexist = random store directory over 2-4 chunk ids with every (id, format) slot absent/valid/corrupt/foreign/empty/directory/garbage plus temp and junk files, then 6-11 random get/has/store/remove/prune/verify operations through handles of either format, each compared with a twin directory lacking the other format's files; unhex = adversarial id strings; fixture = every chunk of the casync-made stores. non-trivial = layout and fixture cases, coexist operations with at least one file of the other format present, id strings of length >= 60 or accepted"
+	r.Rule = "cases: layout = (chunk shape incl. 1 byte, all-zero, incompressible, 256 KiB; format; real or forced id) stored into an empty store and the directory inspected; coexist = random store directory over 2-4 chunk ids with every (id, format) slot absent/valid/corrupt/foreign/empty/directory/garbage plus temp and junk files, then 6-11 random get/has/store/remove/prune/verify operations through handles of either format, each compared with a twin directory lacking the other format's files; unhex = adversarial id strings; fixture = every chunk of the casync-made stores; frame = hand-assembled / streaming zstd frames; history = one chunk object (NewChunk / GetChunk / Cache / Copy) stored into stores of both formats in every order; content = chunk contents that look like storage objects (zstd frames and fragments, gzip/xz magics), also via chopping a .zst file. non-trivial = layout and fixture cases, coexist operations with at least one file of the other format present, id strings of length >= 60 or accepted"
 	desync.Digest = desync.SHA256{}
 	if a.Replay != "" {
 		var c c20Case
@@ -817,6 +817,18 @@ func runC20(a vh.Args, o *vh.Oracle, r *vh.Result) error {
 			return c20Coexist(a, o, r, &c)
 		case "unhex":
 			return c20Unhex(o, r, &c)
+		case "history", "content", "chop":
+			var hc c20HistCase
+			if err := readJSON(a.Replay, &hc); err != nil {
+				return err
+			}
+			switch c.Kind {
+			case "history":
+				return c20History(a, r, &hc)
+			case "content":
+				return c20Content(a, r, &hc)
+			}
+			return c20Chop(a, r, &hc)
 		case "frame":
 			var fc c20FrameCase
 			if err := readJSON(a.Replay, &fc); err != nil {
@@ -893,6 +905,9 @@ func runC20(a vh.Args, o *vh.Oracle, r *vh.Result) error {
 	}
 	r.Sample(map[string]interface{}{"kind": "coexist", "example": c20GenCoexist(vh.NewRand(a.Seed)).Ops})
 	if err := c20FramesAll(a, r, rng); err != nil {
+		return err
+	}
+	if err := c20ObjectsAll(a, r, rng); err != nil {
 		return err
 	}
 	c20Fixtures(a, r)
